@@ -91,6 +91,11 @@ package reflect
 //@   loop 0 invariant 0 <= off && off == sumsz(heap("unknownFieldIdx.sz"), p.offs.ptr, rangeindex + 1)
 //@   loop 0 invariant rangeindex + 1 < len(p.offs) ==> sumsz(heap("unknownFieldIdx.sz"), p.offs.ptr, rangeindex + 2) <= sz
 //@   loop 0 modifies M[ret.ptr : ret.ptr + sz]
+//@   ensures c11_content: forall k int, a Int :: {M[a], p.offs[k]} 0 <= k && k < len(p.offs) && r.ptr + sumsz(heap("unknownFieldIdx.sz"), p.offs.ptr, k) <= a && a < r.ptr + sumsz(heap("unknownFieldIdx.sz"), p.offs.ptr, k + 1)
+//@        ==> M[a] == sel(old(M), a - (r.ptr + sumsz(heap("unknownFieldIdx.sz"), p.offs.ptr, k)) + b.ptr + p.offs[k].off)
+//@   loop 0 invariant c11_content: forall k int, a Int :: {M[a], p.offs[k]} 0 <= k && k <= rangeindex && ret.ptr + sumsz(heap("unknownFieldIdx.sz"), p.offs.ptr, k) <= a && a < ret.ptr + sumsz(heap("unknownFieldIdx.sz"), p.offs.ptr, k + 1)
+//@        ==> M[a] == sel(old(M), a - (ret.ptr + sumsz(heap("unknownFieldIdx.sz"), p.offs.ptr, k)) + b.ptr + p.offs[k].off)
+//@   loop 0 invariant c11_src: forall a Int :: {M[a]} a < old($brk) ==> M[a] == old(M[a])
 
 //@ func (p *unknownFields) Size() (r int)
 //@   requires p != nil
@@ -382,7 +387,7 @@ package reflect
 
 // ufsIs(p): the index held by p is exactly the ghost list of skipped occurrences
 //@ spec func ufsIs(p *unknownFields, n Int, offs Mem, szs Mem) bool = len(p.offs) == n
-//@     && (forall k int :: {p.offs[k].sz} {p.offs[k].off} 0 <= k && k < n ==> p.offs[k].off == offs[k] && p.offs[k].sz == szs[k])
+//@     && (forall k int :: {p.offs[k].sz} {p.offs[k].off} {offs[k]} {szs[k]} 0 <= k && k < n ==> p.offs[k].off == offs[k] && p.offs[k].sz == szs[k])
 
 //@ const ghost $initp = Int
 //@ const ghost $didinit = Bool
